@@ -146,6 +146,13 @@ def judge_single(call, chk, probe=None):
         chk(sig, not cells, {'changed': cells[:8]})
         return not cells
 
+    if call.get('np_err') == 'raise' and exc_name == 'FloatingPointError':
+        # The caller asked NumPy to raise on floating-point errors, and the solver's own step arithmetic (current minus
+        # previous check values) overflowed or met inf - inf: that exception is the caller's configuration at work, the
+        # property prescribes nothing for it.
+        P('caller-error-state-raise-hit-solver-arithmetic')
+        return {'end': 'caller-error-state'}
+
     # status alphabet everywhere, always
     st = post['status']
     chk('status-alphabet', all(s in ALPHABET for s in st.tolist()), {'status': st.tolist()})
